@@ -62,6 +62,7 @@ SrvHello(m, from) ==
 \* anything else from a known address, or a non-hello from an unknown one, changes nothing
 SrvIgnore(m, from) ==
   /\ \/ (m.t = "ch" /\ (from \in DOMAIN temps \/ from \in DOMAIN conns \/ nsess >= 2))
+     \/ (m.t = "bundle")          \* an unencrypted datagram that is not exactly one hello: nothing is processed, whatever it claims to carry
      \/ (m.t = "sh")
      \/ (m.t = "cr" /\ from \notin DOMAIN temps)
   /\ UNCHANGED <<cli, temps, conns, nsess, wire, got, connected, signedByR>>
@@ -118,6 +119,8 @@ Attack ==
           /\ last' = [act |-> "atk-hello", m |-> [t |-> "ch", pub |-> "a"], src |-> from] /\ ToServer([t |-> "ch", pub |-> "a"], from)
      \/ \E m \in AttackerHellos :                   \* a composed / altered / re-signed / foreign server hello
           /\ last' = [act |-> "atk-srvhello", m |-> m, src |-> "atk"] /\ ToClient(m)
+     \/ \E from \in Addrs, tk \in {"zero", "ta"} :     \* a plaintext datagram typed as a hello that bundles a challenge response (valid CRC, no key)
+          /\ last' = [act |-> "atk-bundle", m |-> [t |-> "bundle", token |-> tk], src |-> from] /\ ToServer([t |-> "bundle", token |-> tk], from)
      \/ \E m \in AttackerChallenges, from \in Addrs :
           /\ last' = [act |-> "atk-challenge", m |-> m, src |-> from] /\ ToServer(m, from)
 Next == DeliverHonest \/ Attack
